@@ -30,6 +30,7 @@ func init() {
 			{"C12/client-address", "the clientIp attribute bound into the token is this request's X-Forwarded-For[0] or TCP peer (C04's source rule)", func(c *Ctx) { c04SourceAs(c, "C12/client-address") }},
 			{"C12/hosts-immutable", "the configured host list (shared by the download handler and the tunnel policy) is never rewritten while serving requests", func(c *Ctx) { sharedSliceWrites(c, "C12/hosts-immutable") }},
 			{"C12/handler-wiring", "every Handler field read on request paths is initialised by NewHandler from the Config field of the same name", c12HandlerWiring},
+			{"C12/config-tags", "the configuration fields this property depends on are read from the documented keys: koanf tag = lower-cased field name", func(c *Ctx) { configTags(c, "C12/config-tags", map[string][]string{"Configuration": {"Server", "Security", "Client"}, "ServerConfig": {"Hosts", "HostSelection", "GatewayAddress"}, "SecurityConfig": {"QueryTokenSigningKey", "QueryTokenIssuer", "EnableUserToken"}}) }},
 		},
 	})
 }
